@@ -51,6 +51,22 @@ type Op struct {
 	Fields  map[string]string `json:"fields,omitempty"` // rendered (probe.Render)
 	FireAt  int               `json:"fire_at,omitempty"`
 	Class   string            `json:"class"` // ok | run-error | exit | cancelled | load-error | parse-error
+	// Time of the input point: "" = a fixed instant in 2020, "zero" = the zero time.Time, "epoch", "before-epoch", "far"
+	Time string `json:"point_time,omitempty"`
+}
+
+func opTime(o *Op) time.Time {
+	switch o.Time {
+	case "zero":
+		return time.Time{}
+	case "epoch":
+		return time.Unix(0, 0)
+	case "before-epoch":
+		return time.Unix(-1, 500)
+	case "far":
+		return time.Date(2261, 12, 31, 23, 59, 59, 999999999, time.UTC)
+	}
+	return impl.FixedTime()
 }
 
 var v1call, v1check = sem.V1Tables()
@@ -131,7 +147,7 @@ func perform(st *state, o *Op) string {
 			tags[tk] = tv
 		}
 		pt := input.GetPoint()
-		input.InitPt(pt, "m", tags, fields, impl.FixedTime())
+		input.InitPt(pt, "m", tags, fields, opTime(o))
 		sig := &probe.Sig{FireAt: o.FireAt}
 		rerr, crash := impl.RunV1(s, pt, sig)
 		var b strings.Builder
@@ -141,7 +157,7 @@ func perform(st *state, o *Op) string {
 		if rerr != nil {
 			fmt.Fprintf(&b, "ERR %s\n", rerr.Error())
 		}
-		fmt.Fprintf(&b, "meas=%s time=%d drop=%v\n", pt.Measurement, pt.Time.UnixNano(), pt.Drop)
+		fmt.Fprintf(&b, "meas=%s time=%d zero=%v drop=%v\n", pt.Measurement, pt.Time.UnixNano(), pt.Time.IsZero(), pt.Drop)
 		var ks []string
 		for tk, tv := range pt.Tags {
 			ks = append(ks, fmt.Sprintf("tag %s=%q", tk, tv))
@@ -359,6 +375,12 @@ func genPool(t *rapid.T, n int) []*Op {
 			pool = append(pool, op)
 		}
 	}
+	// the time of the input point: mostly a fixed instant; the zero time, the epoch, instants before it and far away
+	for _, o := range pool {
+		if o.Kind == "run" {
+			o.Time = rapid.SampledFrom([]string{"", "", "", "zero", "epoch", "before-epoch", "far"}).Draw(t, "ptime")
+		}
+	}
 	return pool
 }
 
@@ -488,6 +510,107 @@ func TestHistories(t *testing.T) {
 func clip(s string) string {
 	if len(s) > 600 {
 		return s[:600] + "..."
+	}
+	return s
+}
+
+// TestManyDistinctArguments: the result of an operation does not depend on how many different arguments of its kind
+// the process has seen in between: the first operation of a family is repeated after 15, 16, 17, 63, 64, 65, 70, 129, 300
+// others with pairwise different patterns / names / texts, and gives what it gave at first (as do some of the others).
+func TestManyDistinctArguments(t *testing.T) {
+	run := func(src string, msg string) *Op {
+		return &Op{Kind: "run", Scripts: map[string]string{"main.p": src}, Root: "main.p", Tags: map[string]string{}, Fields: renderFields(map[string]any{"message": msg}), Class: "ok"}
+	}
+	families := []struct {
+		name string
+		mk   func(i int) *Op
+	}{
+		{"replace-pattern", func(i int) *Op {
+			return run(fmt.Sprintf("replace(message, \"id%d=[0-9]+\", \"X%d\")\nprobe(\"m\", message)", i, i), fmt.Sprintf("id0=4711 id%d=12 id1=5", i))
+		}},
+		{"grok-pattern", func(i int) *Op {
+			return run(fmt.Sprintf("ok = grok(_, \"w%d %%{INT:n%d:int}\")\nprobe(\"g\", ok, n%d)", i, i, i), fmt.Sprintf("w%d %d", i, i+40))
+		}},
+		{"grok-capture-type", func(i int) *Op {
+			ty := []string{"", ":int", ":float", ":str", ":bool"}[i%5]
+			return run(fmt.Sprintf("ok = grok(_, \"v%d=%%{NUMBER:val%s}\")\nprobe(\"g\", ok, val)", i/5, ty), fmt.Sprintf("v%d=42", i/5))
+		}},
+		{"add_pattern-alias", func(i int) *Op {
+			return run(fmt.Sprintf("add_pattern(\"al%d\", \"[a-z]{%d}\")\nok = grok(_, \"%%{al%d:w}\")\nprobe(\"g\", ok, w)", i, i%5+1, i), "abcdefgh")
+		}},
+		{"xml-xpath", func(i int) *Op {
+			return run(fmt.Sprintf("xml(_, \"/a/b[%d]\", out)\nprobe(\"x\", out)", i%3+1), fmt.Sprintf("<a><b>one%d</b><b>two</b><b>three</b></a>", i))
+		}},
+		{"strfmt-format", func(i int) *Op {
+			return run(fmt.Sprintf("strfmt(out, \"%%d-f%d-%%s\", %d, \"s\")\nprobe(\"s\", out)", i, i), "m")
+		}},
+		{"sql", func(i int) *Op {
+			return run("sql_cover(_)\nprobe(\"q\", message)", fmt.Sprintf("select c%d from t%d where id = %d and name = 'n%d'", i, i, i, i))
+		}},
+		{"parse-text", func(i int) *Op {
+			return &Op{Kind: "parse", Text: fmt.Sprintf("name%d = fn%d(arg%d, \"s%d\")\nif name%d { other%d = [%d] }", i, i, i, i, i, i, i), Class: "ok"}
+		}},
+		{"parse-error-text", func(i int) *Op {
+			return &Op{Kind: "parse", Text: fmt.Sprintf("name%d = = %d `q%d`", i, i, i), Class: "parse-error"}
+		}},
+		{"load-set", func(i int) *Op {
+			return &Op{Kind: "run", Scripts: map[string]string{"main.p": fmt.Sprintf("use(\"lib%d.p\")\nprobe(\"m\", v)", i), fmt.Sprintf("lib%d.p", i): fmt.Sprintf("add_key(v, %d)", i)}, Root: "main.p", Tags: map[string]string{}, Fields: renderFields(map[string]any{"message": "m"}), Class: "ok"}
+		}},
+		{"same-caller-other-callee", func(i int) *Op {
+			return &Op{Kind: "run", Scripts: map[string]string{"main.p": "use(\"lib.p\")\nprobe(\"m\", v)", "lib.p": fmt.Sprintf("add_key(v, %d)", i)}, Root: "main.p", Tags: map[string]string{}, Fields: renderFields(map[string]any{"message": "m"}), Class: "ok"}
+		}},
+	}
+	n := 0
+	for _, fam := range families {
+		st := newState()
+		first := map[int]string{}
+		var hist []*Op
+		do := func(i int) string {
+			o := fam.mk(i)
+			hist = append(hist, o)
+			return perform(st, o)
+		}
+		first[0] = do(0)
+		next := 1
+		for _, target := range []int{15, 16, 17, 63, 64, 65, 70, 129, 300} {
+			for ; next <= target; next++ {
+				first[next] = do(next)
+			}
+			for _, back := range []int{0, 1, target / 2, target} {
+				got := do(back)
+				if got != first[back] {
+					h := hist
+					if len(h) > 6 {
+						h = append([]*Op{hist[0]}, hist[len(hist)-3:]...)
+					}
+					rk.Fail(t, "many-"+fam.name, replay{History: h, At: len(h) - 1, Want: first[back], Got: got}, "family %s: operation %d gives a different result after %d other operations with different arguments\nfirst:\n%s\nnow:\n%s", fam.name, back, target, clipS(first[back]), clipS(got))
+				}
+				n++
+			}
+		}
+		// and what the first few gave in this process is what a fresh process gives for them
+		dir, derr := os.MkdirTemp("", "c15m")
+		if derr == nil {
+			for i := 0; i < 7; i++ {
+				ref, rerr := reference(fam.mk(i), dir, i)
+				if rerr != nil {
+					continue
+				}
+				if ref != first[i] {
+					rk.Fail(t, "many-"+fam.name, replay{History: hist[:i+1], At: i, Want: ref, Got: first[i]}, "family %s: operation %d gave another result in this process (after %d operations with other arguments) than in a fresh process\nfresh:\n%s\nhere:\n%s", fam.name, i, i, clipS(ref), clipS(first[i]))
+				}
+				n++
+			}
+			_ = os.RemoveAll(dir)
+		}
+		evid.Case("many/"+fam.name, true, "many-distinct-arguments")
+	}
+	evid.Exhaustive("operation family x number of distinct arguments seen in between x operation repeated", n)
+}
+
+func clipS(s string) string {
+	if len(s) > 400 {
+		return s[:400] + "..."
 	}
 	return s
 }
